@@ -5,6 +5,7 @@ import (
 	"go/token"
 	"go/types"
 	"reflect"
+	"regexp"
 	"regexp/syntax"
 	"sort"
 	"strings"
@@ -455,8 +456,22 @@ func loopIndexBound(idx ssa.Value) (string, bool) {
 	if !startOK {
 		return "", false
 	}
-	return an.PathOf(b.Y), true
+	// len(x[k:]) is len(x)-k
+	bp := an.PathOf(b.Y)
+	if m := reLenOfTail.FindStringSubmatch(bp); m != nil {
+		bp = "(len(" + m[1] + ") - const:" + m[2] + ")"
+	}
+	return bp, true
 }
+
+func normLenOfTail(p string) string {
+	if m := reLenOfTail.FindStringSubmatch(p); m != nil {
+		return "(len(" + m[1] + ") - const:" + m[2] + ")"
+	}
+	return p
+}
+
+var reLenOfTail = regexp.MustCompile(`^len\((.*)\[const:(\d+):\]\)$`)
 
 func contains(xs []string, s string) bool {
 	for _, x := range xs {
@@ -563,7 +578,11 @@ func runDecBounds(c *core.Ctx) {
 					return
 				}
 				// loop counter bounded by len(x) (or by the length x was made with)
-				if b, ok := loopIndexBound(idx); ok && contains(facts, b) {
+				nf := make([]string, len(facts))
+				for i, f := range facts {
+					nf[i] = normLenOfTail(f)
+				}
+				if b, ok := loopIndexBound(idx); ok && contains(nf, b) {
 					c.OK(nil, fname(c, fn), construct, pos, "index is a loop counter running while < "+b)
 					return
 				}
